@@ -6,6 +6,7 @@ import LiteFSVerif.Driver.ClusterD
 import LiteFSVerif.Driver.ProxyD
 import LiteFSVerif.Driver.ApiD
 import LiteFSVerif.Driver.BackupD
+import LiteFSVerif.Driver.GoCtxD
 
 open LiteFSVerif LiteFSVerif.Driver
 
@@ -24,6 +25,7 @@ def main (args : List String) : IO UInt32 := do
   | ["proxy"] => loop stdin stdout ProxyD.step {}; return 0
   | ["api"] => loop stdin stdout ApiD.step {}; return 0
   | ["backup"] => loop stdin stdout BackupD.step {}; return 0
+  | ["goctx"] => loop stdin stdout GoCtxD.step {}; return 0
   | ["codec"] => loop stdin stdout Codec.stepModel (); return 0
   | _ =>
     IO.eprintln "usage: modeld <suite>"
